@@ -1218,6 +1218,25 @@ class check_sources_acyclic:
     may_raise = {common.excmod.CyclicError: None}
     modifies = []
 
+    @staticmethod
+    def ensures(self, source_is):
+        """Ghost: every candidate of the batch has been checked against the transitive sinks of this node."""
+        c = cur()
+        q = source_is
+        if isinstance(q, (list, tuple)):
+            return wrap_bool(tm.And(*[cycle_checked(self.i, x) for x in q]))
+        j = tm.Var(c.fresh_name("j!bound"), INT)
+        return wrap_bool(tm.ForAll([(j.s, INT)], tm.Implies(tm.And(tm.Le(tm.mk_int(0), j), tm.Lt(j, q.length)),
+                                                            cycle_checked(self.i, q.elem(j)))))
+
+
+def cycle_checked(sink, source) -> tm.T:
+    """Ghost predicate: `source` was among the candidates of a check_sources_acyclic call on `sink` (it returned, so
+    `source` is not a transitive sink of `sink`).  Established only by that call's contract; Node.add_source requires
+    it when its own check is skipped.  Not tied to a version of the dependency table: edges added between the
+    check and the insertion all end in `sink` (the batch of _supply_files) and cannot create a path from it."""
+    return cur().decls.fun("cyc.checked", [INT, INT], BOOL)(I(sink), I(source))
+
 
 def _monotone(ov, nv):
     """Claims only grow, and only by adoption of a path under an attached static tree (as a STATIC claim); step
@@ -1229,6 +1248,24 @@ def _monotone(ov, nv):
     added = tm.Implies(tm.And(nv.claimed(p), tm.Not(ov.claimed(p))), tm.And(ov.owned(p), tm.Eq(nv.role(p), static)))
     claims = tm.ForAll([(p.s, STR)], tm.And(kept, added), patterns=[[nv.claimed(p)], [nv.role(p)], [nv.creator(p)]])
     return tm.And(claims, common.frame_view(ov, nv, claims_changed=True))
+
+
+def _sf_collected(e):
+    """Every resolved file that needs a new edge and was visited so far is among the collected candidates."""
+    c = cur()
+    if not isinstance(e.new_file_is, sym.SymSeq):
+        return True  # loop entry: nothing visited
+    k = tm.Var(c.fresh_name("k!bound"), INT)
+    m = tm.Var(c.fresh_name("m!bound"), INT)
+
+    def body():
+        file, _, _, nr = e.seq.elem(k)
+        found = tm.Exists([(m.s, INT)], tm.And(tm.Le(tm.mk_int(0), m), tm.Lt(m, e.new_file_is.length),
+                                               tm.Eq(I(e.new_file_is.elem(m)), I(file.i))))
+        return tm.Implies(tm.And(tm.Le(tm.mk_int(0), k), tm.Lt(k, I(e.i)), B(nr)), found)
+
+    from vc import vcrt
+    return wrap_bool(vcrt.quantified([(k.s, INT)], body))
 
 
 def _sf_inv(e):
@@ -1260,7 +1297,7 @@ _sf.ensures = lambda self, old: wrap_bool(_monotone(View(db_of(old.self)), View(
 _sf.loops = {
     0: LoopSpec(locals=dict(resolved=ty.SeqOf(ty.TupleOf(_FileRec, ty.EnumOf(FileState), ty.Bool, ty.Bool))),
                 invariant=_sf_inv, havoc=("self",), modifies={"self": ["db"]}),
-    1: LoopSpec(locals=dict(new_file_is=ty.SeqOf(ty.Int)), invariant=_sf_inv),
+    1: LoopSpec(locals=dict(new_file_is=ty.SeqOf(ty.Int)), invariant=lambda e: [_sf_inv(e), _sf_collected(e)]),
     2: LoopSpec(locals=dict(comp_ret3=ty.SeqOf(_SupplyRec)), invariant=_sf_inv, havoc=("self",),
                 modifies={"self": ["db"]}),
 }
